@@ -937,8 +937,17 @@ package kafka
 // loop stashed) - and an entry written for one topic is not disturbed while the entries of the next topic are built.
 // It also carries ALL of it: one topic entry per topic of the map and, in each, one partition entry per partition of
 // that topic (counted by the number of keys the two map iterations visit), so no offset the caller supplied is dropped.
+// Conn.offsetCommit reports success only if the coordinator accepted every partition of the request: any non-zero
+// per-partition error code of the response (the protocol's negative code -1, UNKNOWN_SERVER_ERROR, included) is an error.
 //@ func (*Conn).offsetCommit
-//@   trusted sends the OffsetCommit request on the coordinator connection (its framing belongs to C04/C11)
+//@   option noframe
+//@   modifies heap
+//@   ensures result1 == nil ==> (forall i, j :: 0 <= i && i < len(result0.Responses) && 0 <= j && j < len(result0.Responses[i].PartitionResponses) ==> result0.Responses[i].PartitionResponses[j].ErrorCode == 0)
+//@   loop 0 invariant -1 <= rangeindex#0 && rangeindex#0 < len(response.Responses)
+//@   loop 0 invariant forall i, j :: 0 <= i && i <= rangeindex#0 && 0 <= j && j < len(response.Responses[i].PartitionResponses) ==> response.Responses[i].PartitionResponses[j].ErrorCode == 0
+//@   loop 1 invariant 0 <= rangeindex#0 && rangeindex#0 < len(response.Responses) && same(r.PartitionResponses, response.Responses[rangeindex#0].PartitionResponses)
+//@   loop 1 invariant forall i, j :: 0 <= i && i < rangeindex#0 && 0 <= j && j < len(response.Responses[i].PartitionResponses) ==> response.Responses[i].PartitionResponses[j].ErrorCode == 0
+//@   loop 1 invariant forall j :: 0 <= j && j <= rangeindex#1 ==> r.PartitionResponses[j].ErrorCode == 0
 //@ func (*Generation).log
 //@   trusted logging
 //@ func (*Generation).CommitOffsets
